@@ -20,6 +20,7 @@ import (
 	"os"
 	"path/filepath"
 
+	"github.com/mitchellh/copystructure"
 	"github.com/pkg/errors"
 
 	chartutil "helm.sh/helm/v4/pkg/chart/v2/util"
@@ -63,7 +64,17 @@ func validateValuesFile(valuesPath string, overrides map[string]interface{}) err
 	// We could change that. For now, though, we retain that strategy, and thus can
 	// coalesce tables (like reuse-values does) instead of doing the full chart
 	// CoalesceValues
-	coalescedValues := chartutil.CoalesceTables(make(map[string]interface{}, len(overrides)), overrides)
+	//
+	// The overrides belong to the caller (they are used again for the templates
+	// and for the next chart): merge into a deep copy of them.
+	overridesCopy, err := copystructure.Copy(overrides)
+	if err != nil {
+		return err
+	}
+	coalescedValues, ok := overridesCopy.(map[string]interface{})
+	if !ok || coalescedValues == nil {
+		coalescedValues = make(map[string]interface{})
+	}
 	coalescedValues = chartutil.CoalesceTables(coalescedValues, values)
 
 	ext := filepath.Ext(valuesPath)
